@@ -1,7 +1,7 @@
 (* Entry points of the extracted model: [run cmd arg]. *)
 From Coq Require Import NArith List Bool.
 From PV Require Import Base.Sx Model.Forest Model.Table Model.LRDriver Model.Scan Model.Parser
-  Validators.TableStruct Validators.ForestSound Validators.TableComplete Extract.Codec.
+  Validators.TableStruct Validators.ForestSound Validators.TableComplete Model.Errors Extract.Codec.
 From PV Require Import Extract.RunC19.
 From PV Require Import Extract.RunC12.
 From PV Require Import Extract.RunC09.
@@ -62,6 +62,13 @@ Definition run_table_complete (s : sx) : sx :=
   ofB (table_complete (grammar_of_sx (sx_nth s 0)) (table_of_sx (sx_nth s 1)) ann
                       (map sxNs (sxL (sx_nth s 3))) (map sxB (sxL (sx_nth s 4))) (sxN (sx_nth s 5))).
 
+(* 9: pos_to_line_col and is_eof: (chars p) -> (line col eof) *)
+Definition run_linecol (s : sx) : sx :=
+  let w := sxNs (sx_nth s 0) in
+  let p := sxN (sx_nth s 1) in
+  let lc := pos_to_line_col w p in
+  L [A (fst lc); A (snd lc); ofB (is_eof w p)].
+
 Definition run (cmd : N) (arg : sx) : sx :=
   match cmd with
   | 1 => run_forest_stats arg
@@ -72,6 +79,7 @@ Definition run (cmd : N) (arg : sx) : sx :=
   | 6 => run_forest_ok arg
   | 7 => run_forest_trees arg
   | 8 => run_table_complete arg
+  | 9 => run_linecol arg
   | 190 => run_c19_unescape arg
   | 191 => run_c19_build arg
   | 192 => run_c19_match arg
